@@ -138,6 +138,34 @@ def run(tier, scratch, t0, replay=None):
         ref = refs.get(vt) if not t["is_pypy"] else None
         check_table(res, name.split(".")[-1], t, ref)
         res.count("tables")
+    # the table xdis *uses*: every lookup key must reach a table of its own major.minor and of its own flavour
+    # (flavour as xdis's own canonical name for the key says: a few PyPy 3.9 releases canonically share CPython's magic)
+    import re
+
+    for key, modname in sorted(main.get("lookups", {}).items()):
+        m = re.match(r"(\d+)\.(\d+)", key)
+        if not m:
+            continue
+        res.evaluations += 1
+        res.count("lookup_keys")
+        t = main["tables"][modname]
+        want_v = [int(m.group(1)), int(m.group(2))]
+        want_pypy = "pypy" in main["canonic"].get(key, key).lower()
+        if t["version_tuple"][:2] != want_v or t["is_pypy"] != want_pypy:
+            res.mismatches.append({"key": "C09|lookup|op_imports[%s]->%s" % (key, modname.split(".")[-1]),
+                                   "detail": {"key": key, "table_version": t["version_tuple"], "table_is_pypy": t["is_pypy"],
+                                              "canonic": main["canonic"].get(key)}})
+    for k, modname in sorted(main.get("get_opcode_module", {}).items()):
+        res.evaluations += 1
+        res.count("lookup_pairs")
+        if modname.startswith("raises:"):
+            res.count("lookup_pair_refused")
+            continue
+        vs_, variant = k.split("/")
+        t = main["tables"].get(modname)
+        if t is None or ".".join(str(x) for x in t["version_tuple"][:2]) != vs_ or t["is_pypy"] != (variant == "pypy"):
+            res.mismatches.append({"key": "C09|lookup|get_opcode_module(%s)->%s" % (k, modname.split(".")[-1]),
+                                   "detail": {"table_version": t and t["version_tuple"], "table_is_pypy": t and t["is_pypy"]}})
     for v, ref in sorted(refs.items()):
         modname = main["get_opcode"].get(K.vstr(v))
         if not modname or modname.startswith("raises"):
